@@ -449,4 +449,3 @@ func loopCase(c Val) Val {
 	eq := len(got) <= len(payload) && bytes.Equal(got, payload[:len(got)])
 	return L(I(dec), I(handed), I(int64(len(got))), Bo(eq))
 }
-
